@@ -411,58 +411,107 @@ def read (text name : String) (bbs : List BBox) (ord : Ord) : E Circuit :=
 
 def gateTypes : List String := ["xor", "xnor", "buf", "not", "nor", "or", "and", "nand"]
 
-/-- `io.circuit_to_verilog(c, behavioral)` -/
-def write (c0 : Circuit) (behavioral : Bool) (ord : Ord) : E String :=
+/-- what the writer emits for one module, as a syntax tree: ports, declarations, then statements in emission order -/
+structure WModule where
+  name : Name
+  inputs : List Name
+  outputs : List Name
+  wires : List Name
+  stmts : List Item            -- blackbox instances, gate instances / assigns, in emission order
+  parens : List Bool := []     -- per statement: the writer parenthesises the negated body (`~(a)` of a 1-input nand/nor/xnor)
+deriving Repr, Inhabited
+
+/-- left-associated chain `a op b op c` as the parser reads it back -/
+def chain (op : Expr → Expr → Expr) : List Name → Expr
+  | [] => Expr.id ""
+  | x :: xs => xs.foldl (fun acc y => op acc (Expr.id y)) (Expr.id x)
+
+/-- `io.circuit_to_verilog(c, behavioral)` up to rendering: the statements it emits -/
+def toWModule (c0 : Circuit) (behavioral : Bool) (ord : Ord) : E WModule :=
   -- private copy; escaped identifiers get a trailing blank
   let c1 := (ord c0.nodeNames).foldl (fun c n => if n.startsWith "\\" then c.relabelOne n (n ++ " ") else c) c0
   (if c1.nodes.any (fun p => p.2.ty.isNone) then .error .keyError else pure ()) >>= fun _ =>
   let inputs := ord c1.inputs
   let outputs := ord c1.outputs
   -- blackboxes
-  c1.bbs.foldlM (fun (s : Circuit × List String) p =>
+  c1.bbs.foldlM (fun (s : Circuit × List Item) p =>
     let inst := p.1
     let bb := p.2
-    (ord bb.ins).foldlM (fun (io : List String) n =>
+    (ord bb.ins).foldlM (fun (io : List (Name × Option Expr)) n =>
         if !s.1.has (inst ++ "." ++ n) then .error .nxError else
         match ord (s.1.fanin (inst ++ "." ++ n)) with
-        | d :: _ => pure (io ++ ["." ++ n ++ "(" ++ d ++ ")"])
-        | [] => pure (io ++ ["." ++ n ++ "()"])) [] >>= fun io1 =>
-    (ord bb.outs).foldlM (fun (r : Circuit × List String) n =>
+        | d :: _ => pure (io ++ [(n, some (Expr.id d))])
+        | [] => pure (io ++ [(n, none)])) [] >>= fun io1 =>
+    (ord bb.outs).foldlM (fun (r : Circuit × List (Name × Option Expr)) n =>
         if !r.1.has (inst ++ "." ++ n) then .error .nxError else
         match ord (r.1.fanout (inst ++ "." ++ n)) with
-        | d :: _ => pure (r.1.disconnect [inst ++ "." ++ n] [d], r.2 ++ ["." ++ n ++ "(" ++ d ++ ")"])
-        | [] => pure (r.1, r.2 ++ ["." ++ n ++ "()"])) (s.1, io1) >>= fun r =>
-    pure (r.1, s.2 ++ [bb.name ++ " " ++ inst ++ " (" ++ ", ".intercalate r.2 ++ ")"])) (c1, []) >>= fun s =>
+        | d :: _ => pure (r.1.disconnect [inst ++ "." ++ n] [d], r.2 ++ [(n, some (Expr.id d))])
+        | [] => pure (r.1, r.2 ++ [(n, none)])) (s.1, io1) >>= fun r =>
+    pure (r.1, s.2 ++ [Item.inst bb.name [(inst, Conns.named r.2)]])) (c1, []) >>= fun s =>
   let c2 := s.1
   -- gates
-  (ord c2.nodeNames).foldlM (fun (st : List String × List String) n =>   -- (insts, wires)
+  (ord c2.nodeNames).foldlM (fun (st : List Item × List Name × List Bool) n =>   -- (statements, wires, paren flags)
     match c2.ty? n with
     | none => .error .keyError
     | some t =>
       if gateTypes.contains t then
         let fanin := ord (c2.fanin n)
-        let wires := st.2 ++ [n]
-        if fanin.isEmpty then pure (st.1, wires) else
+        let wires := st.2.1 ++ [n]
+        if fanin.isEmpty then pure (st.1, wires, st.2.2) else
         if behavioral then
-          if t == "buf" then pure (st.1 ++ ["assign " ++ n ++ " = " ++ fanin.headD ""], wires)
-          else if t == "not" then pure (st.1 ++ ["assign " ++ n ++ " = ~" ++ fanin.headD ""], wires)
+          if t == "buf" then pure (st.1 ++ [Item.assign [(n, Expr.id (fanin.headD ""))]], wires, st.2.2 ++ [false])
+          else if t == "not" then pure (st.1 ++ [Item.assign [(n, Expr.not (Expr.id (fanin.headD "")))]], wires, st.2.2 ++ [false])
           else
-            let sym := if t == "xor" || t == "xnor" then "^" else if t == "and" || t == "nand" then "&" else "|"
-            let body := (" " ++ sym ++ " ").intercalate fanin
-            if t == "xnor" || t == "nor" || t == "nand" then pure (st.1 ++ ["assign " ++ n ++ " = ~(" ++ body ++ ")"], wires)
-            else pure (st.1 ++ ["assign " ++ n ++ " = " ++ body], wires)
+            let body := if t == "xor" || t == "xnor" then chain Expr.xor fanin
+                        else if t == "and" || t == "nand" then chain Expr.and fanin else chain Expr.or fanin
+            if t == "xnor" || t == "nor" || t == "nand" then pure (st.1 ++ [Item.assign [(n, Expr.not body)]], wires, st.2.2 ++ [true])
+            else pure (st.1 ++ [Item.assign [(n, body)]], wires, st.2.2 ++ [false])
         else
           match c2.uid ("g_" ++ toString st.1.length) with
           | none => .error .fuel
-          | some g => pure (st.1 ++ [t ++ " " ++ g ++ "(" ++ n ++ ", " ++ ", ".intercalate fanin ++ ")"], wires)
-      else if t == "0" || t == "1" || t == "x" then pure (st.1 ++ ["assign " ++ n ++ " = 1'b" ++ t], st.2 ++ [n])
+          | some g => pure (st.1 ++ [Item.inst t [(g, Conns.positional ((n :: fanin).map Expr.id))]], wires, st.2.2 ++ [false])
+      else if t == "0" || t == "1" || t == "x" then pure (st.1 ++ [Item.assign [(n, Expr.const t)]], st.2.1 ++ [n], st.2.2 ++ [false])
       else if t == "input" || t == "bb_input" || t == "bb_output" then pure st
-      else .error .valueError) (s.2, []) >>= fun st =>
-  pure ("module " ++ c2.name ++ " (" ++ ", ".intercalate (inputs ++ outputs) ++ ");\n" ++
-    String.join (inputs.map (fun i => "  input " ++ i ++ ";\n")) ++ "\n" ++
-    String.join (outputs.map (fun o => "  output " ++ o ++ ";\n")) ++ "\n" ++
-    String.join (st.2.map (fun w => "  wire " ++ w ++ ";\n")) ++ "\n" ++
-    String.join (st.1.map (fun i => "  " ++ i ++ ";\n")) ++ "endmodule\n")
+      else .error .valueError) (s.2, [], s.2.map (fun _ => false)) >>= fun st =>
+  pure { name := c2.name, inputs := inputs, outputs := outputs, wires := st.2.1, stmts := st.1, parens := st.2.2 }
+
+/-- text of an expression exactly as the writer formats it (only the shapes `toWModule` produces) -/
+def renderExpr : Expr → String
+  | .id s => s
+  | .const v => "1'b" ++ v
+  | .not (.id s) => "~" ++ s
+  | .not e => "~(" ++ renderExpr e ++ ")"
+  | .and a b => renderExpr a ++ " & " ++ renderExpr b
+  | .or a b => renderExpr a ++ " | " ++ renderExpr b
+  | .xor a b => renderExpr a ++ " ^ " ++ renderExpr b
+  | .xnor a b => renderExpr a ++ " ~^ " ++ renderExpr b
+  | .mux c a b => renderExpr c ++ " ? " ++ renderExpr a ++ " : " ++ renderExpr b
+
+def renderStmt (paren : Bool) : Item → String
+  | .assign ((n, .not e) :: _) =>
+    if paren then "assign " ++ n ++ " = ~(" ++ renderExpr e ++ ")" else "assign " ++ n ++ " = " ++ renderExpr (.not e)
+  | .assign ((n, e) :: _) => "assign " ++ n ++ " = " ++ renderExpr e
+  | .inst m ((g, Conns.positional es) :: _) => m ++ " " ++ g ++ "(" ++ ", ".intercalate (es.map renderExpr) ++ ")"
+  | .inst m ((i, Conns.named ps) :: _) =>
+    m ++ " " ++ i ++ " (" ++ ", ".intercalate (ps.map (fun p => "." ++ p.1 ++ "(" ++ (match p.2 with | some e => renderExpr e | none => "") ++ ")")) ++ ")"
+  | _ => ""
+
+def render (m : WModule) : String :=
+  "module " ++ m.name ++ " (" ++ ", ".intercalate (m.inputs ++ m.outputs) ++ ");\n" ++
+    String.join (m.inputs.map (fun i => "  input " ++ i ++ ";\n")) ++ "\n" ++
+    String.join (m.outputs.map (fun o => "  output " ++ o ++ ";\n")) ++ "\n" ++
+    String.join (m.wires.map (fun w => "  wire " ++ w ++ ";\n")) ++ "\n" ++
+    String.join ((m.stmts.zip (m.parens ++ List.replicate m.stmts.length false)).map
+      (fun i => "  " ++ renderStmt i.2 i.1 ++ ";\n")) ++ "endmodule\n"
+
+/-- `io.circuit_to_verilog(c, behavioral)` -/
+def write (c : Circuit) (behavioral : Bool) (ord : Ord) : E String := (toWModule c behavioral ord).map render
+
+/-- the module the reader's parser should recover from the written text -/
+def WModule.toModule (m : WModule) : Module :=
+  { name := m.name, ports := m.inputs ++ m.outputs,
+    items := m.inputs.map (fun i => Item.input [i]) ++ m.outputs.map (fun o => Item.output [o]) ++
+             m.wires.map (fun w => Item.wire [w]) ++ m.stmts }
 
 end Verilog
 end CG
